@@ -10,7 +10,10 @@ Writes /verif/seeded/<seeded-id>/{patch.diff,demo/,meta.json}.
 """
 import json, os, shutil, subprocess, sys, time
 
-ENV = dict(os.environ, GOFLAGS="-mod=mod", GOPROXY="off", GOSUMDB="off", GOTOOLCHAIN="local")
+# scratch builds at scratch paths must not fill the shared Go build cache (a
+# wave of 36 changes grew it to 120 GB): they get their own, removed by
+# tools/evalqueue.sh when the queue is done
+ENV = dict(os.environ, GOFLAGS="-mod=mod", GOPROXY="off", GOSUMDB="off", GOTOOLCHAIN="local", GOCACHE="/tmp/ev/gocache")
 
 def sh(cmd, cwd=None, timeout=1800):
     t0 = time.time()
